@@ -312,7 +312,7 @@ def r14_2(ctx, rr):
 def skeleton(F, b, inl):
     """Multiset of normalized decision atoms / index and shift terms / integer literals of a body,
     with parameter names canonicalized and parallel-iterator plumbing erased."""
-    ren = param_names(b)
+    ren = param_roles(b)
     items = []
     ERASE = ("par_iter_mut", "par_iter", "with_min_len", "iter_mut", "iter")
 
@@ -401,7 +401,9 @@ def r05_2(ctx, rr):
             for p in pm.get(id(n), ()):
                 if p.get("k") == "If" and not is_debug_only(F, p):
                     conds.append(p)
-            extra = [c for c in conds if not (c["c"].get("k") == "Binary" and show(F, c["c"]) in ("(new_len > self.len)", "(self.len < new_len)"))]
+            Tc = Termizer(F, b)
+            growth = cmp_atoms(">", new_len, ("field", slf, "len"))
+            extra = [c for c in conds if not (c["c"].get("k") == "Binary" and sorted(map(repr, cond_atoms(Tc, c["c"], True))) == sorted(map(repr, growth)))]
             in_for = any(p.get("k") == "Loop" and p.get("src") == "ForLoop" for p in pm.get(id(n), ()))
             if lo_ok and hi_ok and val_ok and in_for and not extra:
                 ok = True
@@ -460,9 +462,24 @@ def r05_2(ctx, rr):
     rr.check(cleared and order_ok and ored, "BitVec::push:clears-bit", "BitVec::push must clear the target bit before or-ing the new value in (pop and shrinking resize leave stale ones behind)", b.span)
     # set_unchecked for BitVec clears on false and sets on true (both arms present)
     b = F.one(r"^bits::bit_vec::BitVec::<B>::set_unchecked$")
-    s = show(F, b.body)
+    idx = ("var", b.params[1]["name"], b.params[1]["id"])
+    val = b.params[2]["id"]
+    arms = {"set": False, "clear": False}
+
+    def on_su(W, n, K):
+        if n.get("k") == "AssignOp" and n["op"] in ("|=", "&="):
+            rt = W.expand(W.T.term(n["r"]))
+            one_bit = lambda t: t[0] == "op" and t[1] == "<<" and t[2] == ("int", 1) and t[3][0] == "op" and t[3][1] == "%" and t[3][2] == idx
+            # which branch of `if value` are we in?
+            pos = any(a[0] == "b" and a[1][0] == "var" and a[1][2] == val and a[2] is True for a in K.atoms)
+            neg = any(a[0] == "b" and a[1][0] == "var" and a[1][2] == val and a[2] is False for a in K.atoms)
+            if n["op"] == "|=" and one_bit(rt) and pos:
+                arms["set"] = True
+            if n["op"] == "&=" and rt[0] == "un" and rt[1] == "!" and one_bit(rt[2]) and neg:
+                arms["clear"] = True
+    Walker(F, b, on_node=on_su).run()
     rr.instances += 1
-    rr.check("|= (1 << bit_index)" in s and "&= !(1 << bit_index)" in s, "BitVec::set_unchecked:both-arms", "BitVec::set_unchecked must or the bit in for true and and-not it out for false", b.span)
+    rr.check(arms["set"] and arms["clear"], "BitVec::set_unchecked:both-arms", "BitVec::set_unchecked must or the bit `1 << (index %% BITS)` in for true and and-not it out for false (found set: %s, clear: %s)" % (arms["set"], arms["clear"]), b.span)
 
 
 @rule("R11.4", props=["C11", "C05", "C06", "C10", "C12"], floor=5, title="constructors allocate ceil(len*width/BITS) words (+1 padding word / at least 1) and set len, bit_width, mask")
@@ -475,7 +492,7 @@ def r11_4(ctx, rr):
     ]
     for path, has_width, pad, mx in specs:
         b = F.one(path)
-        ren = param_names(b)
+        ren = param_roles(b, ["bit_width", "len"])
         sl = struct_literal_fields(F, b)
         if len(sl) != 1:
             raise AnchorMissing("%s: expected one struct literal" % b.key)
@@ -508,7 +525,7 @@ def r11_4(ctx, rr):
     rr.check(w is not None and w[0] == "var", "bit_field_vec::mask:formula", "bit_field_vec::mask(w) must be `if w == 0 {0} else {MAX >> (BITS - w)}`; found %s" % tshow(t)[:200], mb.span)
     # BitVec::with_value: ceil(len/BITS) words, last word masked
     b = F.one(r"^bits::bit_vec::BitVec::with_value$")
-    ren = param_names(b)
+    ren = param_roles(b, ["len", "value"])
     n_words = ("call", "int::div_ceil", (("var", "len"), ("def", "bits::bit_vec::BITS")))
     extra = mk_op("-", mk_op("*", n_words, ("def", "bits::bit_vec::BITS")), ("var", "len"))
     state = {"alloc": False, "mask": False}
